@@ -10,6 +10,8 @@ from ..core import Ctx, Violation, HarnessError, SimCrash, rng_for, np_rng, cano
 from ..simfs import SimFS, SimDisk, Patched
 from ..snapshot import snap, semantic_snap, diff as snapdiff
 
+ISOLATE = "chunk"   # every chunk of consecutive runs starts in a forked child of a pristine process (see hvsrobj.py)
+
 PROPS = ("C18",)
 MAX_POOL = 8
 
